@@ -37,9 +37,10 @@ pub fn judge(ctx: &mut Ctx, idx: u64, rng: &mut Rng, origin: &str, tree: &HNode,
     let hash = tree.structural_hash();
     let nontrivial = !matches!(tree, HNode::Term(_));
     ctx.count(if v.valid() { "trees_valid_by_oracle" } else { "trees_invalid_by_oracle" }, 1);
-    // the same tree presented with a key type whose Hash collides almost always: the verdict and
-    // what an accepted game computes must not depend on the hashes of the names being distinct
-    if rng.chance(0.25) {
+    // the same tree presented with a key type whose Hash collides almost always and whose Eq ignores
+    // case (names in random case per occurrence), through child iterators without size hints: the
+    // verdict and what an accepted game computes must not depend on properties of String and Vec
+    if rng.chance(0.25) && bridge::weak_presentable(tree) {
         ctx.count("trees_also_built_with_colliding_hash_keys", 1);
         let weak = catch(|| bridge::build_weak(tree));
         let same = match (&res, &weak) {
